@@ -41,6 +41,7 @@ pub struct MonCtx<S> {
     pub counters: Mutex<BTreeMap<&'static str, u64>>,
     pub nontrivial: Mutex<BTreeMap<&'static str, HashSet<u64>>>,
     pub last_best_lb: AtomicIsize,
+    pub last_was_relaxed: AtomicBool,
 }
 impl<S> MonCtx<S> {
     pub fn new(oracle: Arc<dyn Oracle<S>>, problem: Arc<dyn Problem<State = S> + Send + Sync>, enabled: u32, isolated: bool, ihash: u64, dd_name: &'static str) -> Self {
@@ -48,6 +49,7 @@ impl<S> MonCtx<S> {
             oracle, problem, enabled, isolated, ihash, dd_name, keep_log: false,
             violations: Mutex::new(vec![]), counters: Mutex::new(BTreeMap::new()), nontrivial: Mutex::new(BTreeMap::new()),
             last_best_lb: AtomicIsize::new(isize::MIN),
+            last_was_relaxed: AtomicBool::new(false),
         }
     }
     pub fn on(&self, p: u32) -> bool { self.enabled & bit(p) != 0 }
@@ -198,7 +200,12 @@ where
             None => return self.inner.compile(input),
             Some(c) => c,
         };
-        ctx.last_best_lb.store(input.best_lb, AO::Relaxed);
+        let prev_lb = ctx.last_best_lb.swap(input.best_lb, AO::Relaxed);
+        if input.best_lb > prev_lb {
+            ctx.bump("incumbent_improvements_seen_by_compilations", 1);
+            if ctx.last_was_relaxed.load(AO::Relaxed) { ctx.bump("incumbent_improvements_after_a_relaxed_compilation", 1); }
+        }
+        ctx.last_was_relaxed.store(input.comp_type == CompilationType::Relaxed, AO::Relaxed);
         let log = RefCell::new(Vec::new());
         let res = {
             let rp = RecProblem { inner: input.problem, log: &log };
@@ -211,8 +218,8 @@ where
         };
         let log = log.into_inner();
         if std::env::var("VH_TRACE").is_ok() {
-            eprintln!("COMPILE {:?} root={:?} depth={} value={} w={} best_lb={} -> {:?} is_exact={} best={:?} best_exact={:?}", input.comp_type, input.residual.state, input.residual.depth, input.residual.value, input.max_width, input.best_lb, res.as_ref().map(|c| (c.is_exact, c.best_value)).ok(), self.inner.is_exact(), self.inner.best_value(), self.inner.best_exact_value());
-            for e in &log { match e { Ev::NextVar { depth, layer, var } => eprintln!("  layer depth={depth} var={var:?} states={layer:?}"), Ev::Cost { src, dst, dec, cost } => eprintln!("    arc {src:?} --{}={}--> {dst:?} cost {cost}", dec.variable.0, dec.value), Ev::Merge { inputs, merged } => eprintln!("    merge {inputs:?} -> {merged:?}"), Ev::Rub { state, rub } => eprintln!("    rub {state:?} = {rub}"), _ => {} } }
+            eprintln!("[{:?}] COMPILE {:?} root={:?} depth={} value={} w={} best_lb={} -> {:?} is_exact={} best={:?} best_exact={:?}", std::thread::current().id(), input.comp_type, input.residual.state, input.residual.depth, input.residual.value, input.max_width, input.best_lb, res.as_ref().map(|c| (c.is_exact, c.best_value)).ok(), self.inner.is_exact(), self.inner.best_value(), self.inner.best_exact_value());
+            if std::env::var("VH_TRACE").map_or(false, |v| v == "2") { for e in &log { match e { Ev::NextVar { depth, layer, var } => eprintln!("  layer depth={depth} var={var:?} states={layer:?}"), Ev::Cost { src, dst, dec, cost } => eprintln!("    arc {src:?} --{}={}--> {dst:?} cost {cost}", dec.variable.0, dec.value), Ev::Merge { inputs, merged } => eprintln!("    merge {inputs:?} -> {merged:?}"), Ev::Rub { state, rub } => eprintln!("    rub {state:?} = {rub}"), _ => {} } } }
         }
         self.info = None;
         let ct = input.comp_type;
@@ -497,6 +504,8 @@ where S: Clone + Eq + Hash + Debug + Send + Sync + 'static {
     let mut expansions = 0usize;
     let mut nonid = 0u64;
     let mut layers_over_width = 0u64;
+    let mut not_impacted = 0u64;
+    let mut total_expansions = 0u64;
     let p12 = "C12";
     let mut width_check = |k: usize, expansions: usize, layer_len: usize| {
         if k == 0 { return; }
@@ -526,10 +535,11 @@ where S: Clone + Eq + Hash + Debug + Send + Sync + 'static {
                 last_merge = None;
                 expansions = 0;
             }
-            Ev::Impacted { .. } => {}
+            Ev::Impacted { res, .. } => { if !*res { not_impacted += 1; } }
             Ev::Rub { .. } => {}
             Ev::ForEachBegin { var, state } => {
                 expansions += 1;
+                total_expansions += 1;
                 foreach = Some((*var, state));
                 if c12 {
                     if Some(*var) != cur_var {
@@ -626,6 +636,8 @@ where S: Clone + Eq + Hash + Debug + Send + Sync + 'static {
     ctx.bump("relax_calls", stats.relax_calls as u64);
     ctx.bump("relax_nonidentity_results", nonid);
     ctx.bump("layers", k as u64);
+    ctx.bump("expansions", total_expansions);
+    ctx.bump("not_impacted_answers", not_impacted);
     ctx.bump("layers_wider_than_max_width", layers_over_width);
     let h = || hash_of(&(ctx.ihash, ctx.dd_name, format!("{:?}", input.residual.state), input.residual.depth, input.residual.value, input.max_width, input.best_lb, ct_name(ct)));
     if c12 && stats.relax_calls > 0 { ctx.nontrivial(p12, h()); }
@@ -686,6 +698,7 @@ impl<S: Hash + Debug> Fringe for MonFringe<'_, S> {
                 if node.depth <= *d { self.stats.non_progress.fetch_add(1, AO::Relaxed); }
             }
         }
+        if std::env::var("VH_TRACE").is_ok() { eprintln!("  [{:?}] PUSH state={:?} depth={} value={} ub={}", std::thread::current().id(), node.state, node.depth, node.value, node.ub); }
         self.inner.push(node);
         let len = self.inner.len() as u64;
         self.stats.max_len.fetch_max(len, AO::Relaxed);
@@ -693,6 +706,7 @@ impl<S: Hash + Debug> Fringe for MonFringe<'_, S> {
     fn pop(&mut self) -> Option<SubProblem<S>> {
         let r = self.inner.pop();
         if let Some(n) = &r {
+            if std::env::var("VH_TRACE").is_ok() { eprintln!("  [{:?}] POP state={:?} depth={} value={} ub={}", std::thread::current().id(), n.state, n.depth, n.value, n.ub); }
             self.stats.pops.fetch_add(1, AO::Relaxed);
             if let Some(u) = self.last_ub { if n.ub > u { self.stats.ub_increases.fetch_add(1, AO::Relaxed); } }
             self.last_ub = Some(n.ub);
